@@ -235,6 +235,22 @@ class C02(CoreCheck):
         tail = (mo or "").split(" | M | ", 1)[-1]
         return "Cf" in tail and " a fh" in tail
 
+    def gen_cases(self, ctx, rng, n):
+        cases = CoreCheck.gen_cases(self, ctx, rng, n)
+        # a failed iv_fd_register_try followed by a plain registration of the same struct (same or other
+        # handler set), and handlers replaced by other non-NULL handlers
+        for _ in range(n // 6):
+            be = rng.choice(self.backends)
+            hs = rng.choice(["fh0i1", "fh0i1 fh0o2", "fh0o2", "", "fh0e3"])
+            hs2 = rng.choice(["", "", "fh0i2", "fh0o1", "fh0i-"])
+            cond = rng.choice(["i", "o", "io", "h"])
+            secs = ["B" + be, "M%d" % rng.choice([5, 8]),
+                    "S %s kc0 ft0 ko0 %s fr0 ks0=%s%s" % (hs, hs2, cond, rng.choice(["", " tr0+2000000"])),
+                    "Hf1:" + rng.choice(["ks0=", "fh0i2/ks0=", "fu0"]), "Hf2:" + rng.choice(["ks0=", "fh0o1/ks0=", "fu0"]),
+                    "Hf3:ks0= fu0", "Ht0:" + rng.choice(["-", "fh0i1", "fu0"])]
+            cases.append(";".join(secs))
+        return cases
+
 
 class C03(CoreCheck):
     pid = "C03"
@@ -246,6 +262,29 @@ class C03(CoreCheck):
 
     def nontrivial(self, case, mo):
         return self.count(mo, r"\| Cf") >= 2
+
+    def gen_cases(self, ctx, rng, n):
+        cases = CoreCheck.gen_cases(self, ctx, rng, n)
+        # struct reuse WITHOUT re-initialisation: a descriptor that is queued in the current batch is
+        # unregistered by another handler and registered again, then becomes ready for a different band only
+        for _ in range(n // 5):
+            be = rng.choice(self.backends)
+            b1, b2 = rng.sample(["i", "o"], 2)
+            c1 = {"i": "i", "o": "o"}[b1]
+            c2 = {"i": "i", "o": "o"}[b2]
+            first = rng.choice([0, 1])
+            other = 1 - first
+            secs = ["B" + be, "M%d" % rng.choice([6, 10]),
+                    "S fh0i1 fh0o2 fh1i1 fh1o2 fr0 fr1 ks0=%s ks1=%s" % (c1, c1) + rng.choice(["", " tr0+1000000"])]
+            reuse = "fu%d fr%d ks%d=%s ks%d=" % (other, other, other, c2, first)
+            secs.append("Hf1:" + (reuse if b1 == "i" else "-") + "/ks0= ks1=/-")
+            secs.append("Hf2:" + (reuse if b1 == "o" else "-") + "/ks0= ks1=/-")
+            # the same with the roles decided at run time (whichever handler runs first)
+            if rng.random() < 0.5:
+                secs[3] = "Hf1:fu0 fu1 fr0 fr1 ks0=%s ks1=%s/ks0= ks1=/-" % (c2, c2) if b1 == "i" else secs[3]
+            secs.append("Ht0:-")
+            cases.append(";".join(secs))
+        return cases
 
 
 class C04(CoreCheck):
@@ -318,6 +357,24 @@ class C09(CoreCheck):
             for w in range(2, 6):
                 if rng.random() < 0.4:
                     secs.append("W%d:%s" % (w, " ".join(["rp%d" % rng.randint(0, 1)] * rng.choice([1, 3, 70]))[:120]))
+            cases.append(";".join(secs))
+        # long bursts around the read size of the pipe fall-back (1024) and beyond a pipe buffer (65536),
+        # on every transport, posted before the loop runs and while it is blocked
+        for _ in range(max(6, n // 40)):
+            be = rng.choice(self.backends)
+            fl = rng.choice([["noeventfd"], ["noeventfd"], ["noeventfd2"], None])
+            burst = rng.choice([1023, 1024, 1025, 2047, 2048, 3072, 4096, 1024]) if ctx.tier == "quick" or rng.random() < 0.8 \
+                else rng.choice([65535, 65536, 65537, 70000])
+            where = rng.choice(["S", "W"])
+            secs = ["B" + be] + (["X" + ",".join(fl)] if fl else []) + ["M6"]
+            posts = " ".join(["rp0"] * burst)
+            if where == "S":
+                secs.append("S rr0 " + posts)
+            else:
+                secs.append("S rr0 tr0+1000000000")
+                secs.append("W1:" + posts)
+                secs.append("Ht0:-")
+            secs.append("Hr0:" + rng.choice(["-", "-/ru0", "rp0/-"]))
             cases.append(";".join(secs))
         return cases
 
